@@ -1,6 +1,7 @@
 package main
 
 import (
+	"github.com/nulab/autog/internal/geom"
 	"strings"
 	"encoding/json"
 	"flag"
@@ -68,9 +69,41 @@ type monEvent struct {
 
 type recorder struct {
 	events []monEvent
+	cors   []corridor // the corridors the spline router logged since the last stage-5 snapshot
 }
 
+// what the spline router hands to geom.Shortest for one edge, as logged through the monitor ("rect", "shortest-start",
+// "shortest-end" events following a "spline" event)
+type corridor struct {
+	rects [][4]float64
+	s, e  [2]float64
+}
+
+var curRec *recorder
+
 func (r *recorder) Log(phase int, alg, key string, val any) {
+	if phase == 5 {
+		switch v := val.(type) {
+		case geom.Rect:
+			if key == "rect" && len(r.cors) > 0 {
+				k := len(r.cors) - 1
+				r.cors[k].rects = append(r.cors[k].rects, [4]float64{v.TL.X, v.TL.Y, v.BR.X, v.BR.Y})
+			}
+		case geom.P:
+			if len(r.cors) > 0 {
+				k := len(r.cors) - 1
+				if key == "shortest-start" {
+					r.cors[k].s = [2]float64{v.X, v.Y}
+				} else if key == "shortest-end" {
+					r.cors[k].e = [2]float64{v.X, v.Y}
+				}
+			}
+		default:
+			if key == "spline" {
+				r.cors = append(r.cors, corridor{})
+			}
+		}
+	}
 	ev := monEvent{phase: phase, alg: alg, key: key}
 	if v, ok := val.(int); ok {
 		ev.ival, ev.isInt = v, true
@@ -286,6 +319,7 @@ func cmdRun(args []string) {
 
 func runCase(c *Case, w writer) {
 	rec := &recorder{}
+	curRec = rec
 	src, sizes, opts := buildOptions(c, rec)
 	if c.P1 == "greedyrand" {
 		reseed(int64(c.Seed))
